@@ -2,6 +2,15 @@
 From Coq Require Import NArith List Bool Lia Arith ZifyBool ZifyN ZifyNat.
 Import ListNotations.
 Require Import SR.Base.Res SR.Gen.PictureParams SR.Spec.Picture SR.Model.Picture.
+(* The definitions of this development that occur in theorem statements (Props/) live in Spec/PictureWf.v (audit item G1).
+   The abbreviations keep the qualified names PictureP.name of other files resolving; they are parsing-only aliases. *)
+Require Export SR.Spec.PictureWf.
+Notation okc := SR.Spec.PictureWf.okc (only parsing).
+Notation alpha := SR.Spec.PictureWf.alpha (only parsing).
+Notation num_elems := SR.Spec.PictureWf.num_elems (only parsing).
+Notation text_char := SR.Spec.PictureWf.text_char (only parsing).
+Notation pic_nonempty := SR.Spec.PictureWf.pic_nonempty (only parsing).
+Notation kb_dec := SR.Spec.PictureWf.kb_dec (only parsing).
 Open Scope N_scope.
 
 (* ---- the tie to the source: what T1 read ---- *)
@@ -1291,7 +1300,6 @@ Proof.
 Qed.
 
 (* ================= scanning an expansion again ================= *)
-Definition okc (c : N) : bool := mem c [43; 45; 83; 36; 44; 47; 42; 66; 86; 46; 65; 88; 57; 90; 48; 80].
 
 (* a string every character of which the decoder scanner matches or is P *)
 Fixpoint vf (e : list N) : bool :=
@@ -1445,7 +1453,6 @@ Proof.
 Qed.
 
 (* ================= the expansion of an accepted picture is accepted and is no known finding ================= *)
-Definition alpha (c : N) : bool := okc c || mem c [68; 67; 82].
 
 Lemma vf_alpha n : forall e, (length e <= n)%nat -> vf e = true -> forallb alpha e = true.
 Proof.
@@ -1728,10 +1735,6 @@ Lemma items_V t : dec_items (86 :: t) = Tok (E KDecimal [86]) :: dec_items t.
 Proof. apply items_tok. reflexivity. Qed.
 
 (* ---- the elements of a printed picture ---- *)
-Definition num_elems (s : bool) (m n : nat) : list elt :=
-  (if s then [E KSign [83]] else [])
-  ++ (match m with O => [] | S _ => [E KDigit (repeat 57 m)] end)
-  ++ (match n with O => [] | S _ => [E KDecimal [86]; E KDigit (repeat 57 n)] end).
 
 Lemma num_items s m n ri rf : (1 <= m + n)%nat ->
   dec_items (pic_text (SchemaTruth.PNum s m n ri rf)) = map Tok (num_elems s m n).
@@ -1813,8 +1816,6 @@ Proof.
   reflexivity.
 Qed.
 
-Definition text_char (alpha : bool) : N := if alpha then 65 else 88.
-
 Lemma text_parse alpha k rep : (1 <= k)%nat ->
   dec_parse (pic_text (SchemaTruth.PText alpha k rep)) =
   Some (Ok {| p_elems := [E KDigit (repeat (text_char alpha) k)]; p_size := k;
@@ -1834,11 +1835,6 @@ Proof.
 Qed.
 
 (* ---- the generator side on a printed picture ---- *)
-Definition pic_nonempty (p : SchemaTruth.fpic) : bool :=
-  match p with
-  | SchemaTruth.PNum _ m n _ _ => (1 <=? m + n)%nat
-  | SchemaTruth.PText _ k _ => (1 <=? k)%nat
-  end.
 
 Lemma digit_nolow ds : forallb sp_digit ds = true -> existsb lowtrig ds = false.
 Proof.
@@ -1926,13 +1922,6 @@ Proof.
 Qed.
 
 (* ================= the decoder half under the decoder's own findings only ================= *)
-(* the part of known_bad that concerns the decoder-side scanner and zoned_decimal: findings 6, 1, 2, 8, 7
-   restricted to estruct; findings 3, 4, 5 (generator side) play no role *)
-Definition kb_dec (s : list N) : bool :=
-  kb_nd s
-  || (ends_with_tok (dec_items s) && existsb bad_skip (dec_items s))
-  || existsb empty_elt (elems (dec_items s))
-  || kb_lastonly s || kb_zeropos s.
 
 Lemma kb_dec_weaker s : known_bad s = false -> kb_dec s = false.
 Proof.
